@@ -187,6 +187,10 @@ class SimpleTool:
     required_capabilities: set[Capability] = field(default_factory=set)
     parameters_schema: dict = field(default_factory=lambda: {"type": "object", "properties": {}})
 
+    def __post_init__(self):
+        # Freeze the requirement: a one-shot iterable (map, generator) would be empty after the first capability check
+        self.required_capabilities = set(self.required_capabilities or ())
+
     def execute(self, *args: Any, **kwargs: Any) -> Any:
         return self.func(*args, **kwargs)
 
